@@ -27,7 +27,7 @@ import re
 from ..core import hx, unhx, unhxs, parallel_map
 
 DRIVERS = ["drv_linenum", "drv_machine"]
-GENERATED = ["LineNum", "HunkCounter", "HunkInit", "Handlers", "Markers"]
+GENERATED = ["LineNum", "HunkCounter", "HunkInit", "Handlers", "Markers", "SbsDispatch"]
 
 ANSI = re.compile(r"\x1b\[[0-9;?]*[A-Za-z]|\x1b\]8;[^\x1b\x07]*(?:\x1b\\|\x07)")
 USIZE_MAX = 2 ** 64 - 1
@@ -1221,6 +1221,8 @@ def check_binary_case(ctx, case):
                     res["fail"] = ("sbs:field-width", w)
                     return res
                 dec["numbers"].append((exp_l, exp_r))
+                # what the two own cells of the row show (first {nm} of the left field, first {np} of the right one)
+                dec.setdefault("shown", []).append((first(cl, "nm"), first(cr, "np")))
             want_old = [(("k" if t[0] == " " else "o"), t[1]) for t in old_seq]
             want_new = [(("k" if t[0] == " " else "n"), t[2]) for t in new_seq]
             if seen_old != want_old or seen_new != want_new:
@@ -1348,6 +1350,100 @@ def whole_compare(case, decs, mm):
     return True, ""
 
 
+def sbs_entries(shown):
+    """display rows of one hunk -> [(old number | None, new number | None, rows)]: a row that shows a number starts an
+    entry, the blank rows after it are its continuation rows"""
+    ents = []
+    for l, r in shown:
+        if l is None and r is None:
+            if not ents:
+                return None
+            ents[-1][2] += 1
+        else:
+            ents.append([l, r, 1])
+    return ents
+
+
+def whole_request_sbs(case, decs):
+    """`linenum.whole_sbs <line-buffer-size> <n> {N x<minus file> x<plus file> | H x<@@ line> |
+    L <kind> <display rows> <raw> <tag>}*` — the whole generated input; per line the number of display rows the binary
+    used for it and, as tags, which removed line it paired with which added line (both read off the binary's rows:
+    wrapping is C07's subject, the alignment C06's); everything else — where the flushes fall, which block a line is
+    painted in, every number — is computed by `WholeSbs.runWholeSbs`. None: the rows cannot be read that way."""
+    rm = case.get("rawmode") or ""
+    raw = {"-": int(rm in ("colour", "all") or "minus" in rm), "+": int(rm in ("colour", "all") or "plus" in rm),
+           " ": int(rm in ("colour", "all") or "zero" in rm)}
+    items = []
+    truth = [(f, h) for f in case["files"] for h in f["hunks"]]
+    if len(decs) != len(truth):
+        return None
+    k = 0
+    for f in case["files"]:
+        items.append(f"N {hx(f['old'])} {hx(f['new'])}")
+        for h in f["hunks"]:
+            ents = sbs_entries(decs[k].get("shown", []))
+            k += 1
+            if ents is None:
+                return None
+            ctx_old = {t[1] for t in h["truth"] if t[0] == " "}
+            rows_old, rows_new, tag_old = {}, {}, {}
+            for l, r, n in ents:
+                if l is not None:
+                    rows_old[l] = n
+                if r is not None:
+                    rows_new[r] = n
+                if l is not None and r is not None and l not in ctx_old:
+                    tag_old[l] = r + 1
+            items.append("H " + hx(h["header"]))
+            for i, t in enumerate(h["truth"]):
+                if t[0] == "-":
+                    items.append(f"L 0 {rows_old.get(t[1], 1)} {raw['-']} {tag_old.get(t[1], 0)}")
+                elif t[0] == "+":
+                    items.append(f"L 1 {rows_new.get(t[2], 1)} {raw['+']} {t[2] + 1}")
+                else:
+                    items.append(f"L 2 {rows_old.get(t[1], 1)} {raw[' ']} 0")
+                if i in h["other_after"]:
+                    items.append("L 3 1 0 0")
+    return f"linenum.whole_sbs {case['lbs']} {len(items)} " + " ".join(items)
+
+
+def whole_compare_sbs(case, decs, mm):
+    """model rows of a whole side-by-side run vs what the real binary showed: per hunk the header row (path, position),
+    the width of the number fields, and for EVERY display row the number in the left panel's {nm} cell and in the
+    right panel's {np} cell (wrapped continuation rows and empty halves included)"""
+    if not mm.startswith("ok "):
+        return False, "model: " + mm[:80]
+    fs = mm.split()
+    n, pos, hunks = int(fs[1]), 2, []
+    for _ in range(n):
+        if fs[pos] == "H":
+            hunks.append(dict(path=unhxs(fs[pos + 1]), number=int(fs[pos + 2]), rows=[], widths=set()))
+            pos += 3
+            continue
+        if not hunks:
+            return False, "model: row before the first header"
+        if fs[pos] == "P":
+            hunks[-1]["widths"].add(int(fs[pos + 1]))
+            pos += 3
+        else:
+            hunks[-1]["rows"].append((None if fs[pos + 1] == "-" else int(fs[pos + 1]), None if fs[pos + 2] == "-" else int(fs[pos + 2])))
+            hunks[-1]["widths"].add(int(fs[pos + 3]))
+            pos += 5
+    truth = [(f, h) for f in case["files"] for h in f["hunks"]]
+    if len(hunks) != len(truth) or len(decs) != len(truth):
+        return False, f"{len(hunks)} header rows in the model, {len(decs)} shown, {len(truth)} hunks"
+    for i, (mh, dec, (f, h)) in enumerate(zip(hunks, decs, truth)):
+        if (mh["path"], mh["number"]) != (dec["path"], dec["number"]):
+            return False, f"hunk {i}: model header {mh['path']!r}:{mh['number']}, shown {dec['path']!r}:{dec['number']}"
+        if mh["widths"] != {digits_width([(h["a"], h["nb"]), (h["c"], h["nd"])])}:
+            return False, f"hunk {i}: model field widths {sorted(mh['widths'])}, the cells shown have {digits_width([(h['a'], h['nb']), (h['c'], h['nd'])])}"
+        shown = [tuple(x) for x in dec.get("shown", [])]
+        if mh["rows"] != shown:
+            j = next((j for j, (x, y) in enumerate(zip(mh["rows"], shown)) if x != y), min(len(mh["rows"]), len(shown)))
+            return False, f"hunk {i}: {len(mh['rows'])} model rows, {len(shown)} shown; first difference at row {j}: model {mh['rows'][j:j + 3]}, shown {shown[j:j + 3]}"
+    return True, ""
+
+
 def eval_binary(ctx, rep, cases, mdl):
     results = parallel_map(lambda c: check_binary_case(ctx, c), cases)
     mreqs, mmeta = [], []
@@ -1414,6 +1510,16 @@ def eval_binary(ctx, rep, cases, mdl):
         if not case["blank"] and all("other_after" in h for f in case["files"] for h in f["hunks"]):
             mreqs.append(whole_request(case))
             mmeta.append(("whole", case, None, None, res["hunks"]))
+            # side-by-side view: the same input through `WholeSbs.runWholeSbs`, every display row compared
+            if case["sbs"]:
+                has_nm = any(q[0] == "ph" and q[1] == "nm" for q in case["fl"].parts)
+                has_np = any(q[0] == "ph" and q[1] == "np" for q in case["fr"].parts)
+                req = whole_request_sbs(case, res["hunks"]) if has_nm and has_np else None
+                if req is None:
+                    rep.count("binary.whole_sbs:skipped:" + ("rows-not-readable" if has_nm and has_np else "format-without-own-placeholder"))
+                else:
+                    mreqs.append(req)
+                    mmeta.append(("whole_sbs", case, None, None, res["hunks"]))
     if mdl and mreqs:
         model = mdl.ask(mreqs)
         for (op, case, f, h, dec), mm in zip(mmeta, model):
@@ -1422,6 +1528,18 @@ def eval_binary(ctx, rep, cases, mdl):
                 ok, why = whole_compare(case, dec, mm)
                 rep.count("binary.whole:" + ("sbs" if case["sbs"] else "unified"))
                 rep.corr_case("binary.whole", ok, dict(kind="binary-whole", args=case["args"], diff=case["diff"][:1500], why=why, model=mm[:600]))
+                continue
+            if op == "whole_sbs":
+                ok, why = whole_compare_sbs(case, dec, mm)
+                shown = [x for d in dec for x in d.get("shown", [])]
+                rep.count("binary.whole_sbs:runs")
+                rep.count("binary.whole_sbs:rows", len(shown))
+                rep.count("binary.whole_sbs:continuation-rows", sum(1 for x in shown if x == (None, None)))
+                rep.count("binary.whole_sbs:paired-rows", sum(1 for x in shown if x[0] is not None and x[1] is not None))
+                rep.count("binary.whole_sbs:half-empty-rows", sum(1 for x in shown if (x[0] is None) != (x[1] is None)))
+                if case["lbs"] != 32:
+                    rep.count("binary.whole_sbs:small-line-buffer")
+                rep.corr_case("binary.whole_sbs", ok, dict(kind="binary-whole-sbs", args=case["args"], diff=case["diff"][:1500], why=why, model=mm[:600]))
                 continue
             if op == "header":
                 # git strips the a/ b/ prefixes before delta stores the paths
